@@ -69,6 +69,21 @@ def replay_inverse(where, f, g, x, d, N):
     return err > _tol(x), dict(what="%s(%s(x,d),1/(N d)) != x" % (g, f), max_abs_err=err, x=x, delta=d, N=N)
 
 
+def _replay_inverse_pure(where, f, g, x, d, N):
+    x = numpy.asarray(x, dtype=float)
+    d = float(d)
+    if not (d > 0) or abs(d - 1.0) < 1e-6:
+        d = 0.37
+    X = numpy.asarray(_real_call(where, f, x.copy(), d))
+    X0 = X.copy()
+    try:
+        _real_call(where, g, X, 1.0 / (N * d))
+    except Exception:
+        return False, dict(what="inverse raises (see the round-trip obligation)")
+    bad = X.shape != X0.shape or not numpy.array_equal(X, X0)
+    return bool(bad), dict(what="%s modifies the spectrum it is given" % g, delta=d, before=X0, after=X)
+
+
 def replay_parseval(where, f, x, d, N, dims, weights=None):
     x = numpy.asarray(x)
     X = numpy.asarray(_real_call(where, f, x.copy(), d))
@@ -226,11 +241,15 @@ def case_real_1d(ctx, where, N, batch):
     ctx.encoded("aotools.fouriertransform.rft", "aotools.fouriertransform.irft")
     ctx.bounds.update(N=N, batch=list(batch), delta="symbolic > 0", input="symbolic real")
     H = _call(where, "rft", x, d)
+    H_before = numpy.asarray(H, dtype=object).copy()
     try:
         xb = _call(where, "irft", H, df)
         goal = all_eq(xb, x)
     except ValueError:
         goal = z3.BoolVal(False)       # the inverse refuses the half spectrum of this length: decided by the replay
+    ctx.prove("irft leaves the half spectrum it is given unchanged", pre, all_eq(numpy.asarray(H, dtype=object), H_before),
+              replay=lambda m: _replay_inverse_pure(where, "rft", "irft", m(x), m(d), N), witness_terms=dict(delta=d))
+    H = H_before.view(core.SA)
     ctx.prove("irft(rft(x))=x", pre, goal,
               replay=lambda m: replay_inverse(where, "rft", "irft", m(x), m(d), N), witness_terms=dict(delta=d))
     # Parseval on the half spectrum, Hermitian weights (1 for DC/Nyquist, 2 otherwise), on the un-shifted bins
@@ -262,11 +281,15 @@ def case_real_2d(ctx, where, N, batch):
     ctx.encoded("aotools.fouriertransform.rft2", "aotools.fouriertransform.irft2")
     ctx.bounds.update(N=N, batch=list(batch), delta="symbolic > 0", input="symbolic real")
     H = _call(where, "rft2", x, d)
+    H_before = numpy.asarray(H, dtype=object).copy()
     try:
         xb = _call(where, "irft2", H, df)
         goal = all_eq(xb, x)
     except ValueError:
         goal = z3.BoolVal(False)
+    ctx.prove("irft2 leaves the half spectrum it is given unchanged", pre, all_eq(numpy.asarray(H, dtype=object), H_before),
+              replay=lambda m: _replay_inverse_pure(where, "rft2", "irft2", m(x), m(d), N), witness_terms=dict(delta=d))
+    H = H_before.view(core.SA)
     ctx.prove("irft2(rft2(x))=x", pre, goal,
               replay=lambda m: replay_inverse(where, "rft2", "irft2", m(x), m(d), N), witness_terms=dict(delta=d))
     if batch:
